@@ -27,6 +27,7 @@ def is_logger(call):
 class Recorder:
     def __init__(self):
         self.header_arg = None
+        self.header_calls = 0
         self.decode_args = None
         self.decode_kwargs = None
         self.checksum_args = []
@@ -154,6 +155,7 @@ def encode_with(program, method, frames, payload=None):
         if name.endswith('._build_header'):
             args = [it.expr(a, env) for a in call.args]
             rec.header_arg = args
+            rec.header_calls += 1
             return A.AInt(None, list(ID_BITS))
         if name == 'calculate_canbus_checksum':
             arg = it.expr(call.args[0], env)
